@@ -3,7 +3,7 @@ from .. import terms as T
 from ..terms import sym, fld, sel, ZERO
 from .common import *
 from .C02 import ACC_OPAQUE
-from .C03 import Proxy
+from .common import Proxy, share
 
 
 def check(ctx):
@@ -198,6 +198,6 @@ def check(ctx):
 
     # ---------------------------------------------------------------- shared rules
     from . import C02, C07, C09
-    C02.check(Proxy(ctx, 'R5/C02.', only=['R1.once', 'R2.integrand_once']))
-    C07.check(Proxy(ctx, 'R4/C07.', only=['R1.']))
-    C09.check(Proxy(ctx, 'R3/C09.', only=['R1.', 'R2.', 'R4.']))
+    share(ctx, 'C02', 'R5/C02.', ['R1.once', 'R2.integrand_once'])
+    share(ctx, 'C07', 'R4/C07.', ['R1.'])
+    share(ctx, 'C09', 'R3/C09.', ['R1.', 'R2.', 'R4.'])
